@@ -303,6 +303,23 @@ theorem definition_needs_exact_product (len : Int) (ops : List Op) (r : Rec) (ho
   have hp' : d.product ∈ g'.cores := by simpa using hp
   exact hne _ hp' rfl
 
+/-- a sideloaded protocluster (`SideloadedProtocluster`) never has defining genes -/
+theorem sideloaded_defines_nothing (len : Int) (ops : List Op) (r : Rec) (hok : HistoryOK ops) (hrun : run len ops = .ok r)
+    (a : AreaT) (ha : a ∈ opsAreas ops) (d : AreaT) (hd : d ∈ nodes a) (hk : d.kind = .sideProto) :
+    r.definition d.id = [] := by
+  have inv := (run_inv hok.opOK hrun).core
+  rw [List.eq_nil_iff_forall_not_mem]
+  intro gid hm
+  rw [mem_definition] at hm
+  obtain ⟨g, _, d', ⟨s, hl⟩, hdef, hx⟩ := inv.defsSound _ hm
+  injection hx with h1 _
+  obtain ⟨_, a', ha', hd'⟩ := hl.contained
+  obtain ⟨_, _, _, e4⟩ := hok.ids a' ha' a ha d' hd' d hd h1.symm
+  simp only [defines, Bool.and_eq_true, beq_iff_eq] at hdef
+  rw [hdef.1.1] at e4
+  rw [hk] at e4
+  cases e4
+
 /-- the pre / cross / post-origin sections of a region of the record: its genes, each in exactly the section
     `specSection` names (crossing genes → cross; in an origin-spanning region the genes of the part after the
     origin → post, the others → pre; in an ordinary region → post) -/
